@@ -264,7 +264,7 @@ func main() {
 	model := flag.String("model", "", "")
 	out := flag.String("out", "-", "")
 	allk := flag.Bool("allk", false, "fail conn.Write at every k for every response program; all two-way cuts of short streams")
-	only := flag.String("only", "", "run only one scenario: resp, conn, ws, nbconn, engine, synth")
+	only := flag.String("only", "", "run only one scenario: resp, conn, ws, nbconn, engine, wq, body, wsrecv, synth")
 	flag.Parse()
 	logging.SetLevel(logging.LevelNone)
 	debug.SetGCPercent(400) // the cases allocate (and drop) many large never-recycled buffers
@@ -273,7 +273,11 @@ func main() {
 		"conn: 1-3 pipelined requests (no body / Content-Length / chunked with trailers, bodies 0..64K+) cut into random segments or at every position, corrupted byte, close after any segment, body size and read limits, handler reads all / part / nothing, allocator in place / always move / move on growth with 0-1024 bytes slack; " +
 		"ws: server (real Upgrade, blocking mode) and client role, direct and send-queue writes, messages of 0,1,125,126,127,65535,65536 +- and larger, fragmented, compressed, over the limit, invalid frames, bad deflate data, pings/close, segments cut anywhere, close mid-message, write failures, slow connection with close while frames are queued; " +
 		"nbconn: real nbio engine over loopback TCP, writes far beyond the socket buffer (Write and Writev), peer reads all / little, close with a backlog; " +
-		"engine: real nbhttp engine (non-blocking / blocking IO mode, allocator also as ReadBufferPool) with std clients: pipelined POST echo and generated responses in segments, WebSocket upgrade, echo of empty / threshold-sized / fragmented / compressed messages, pings, close by either side, half a request left behind; synth: random event traces with violations for the two checkers; non-trivial = the run performed allocator events (synth: the trace contains a violation)"
+		"engine: real nbhttp engine (non-blocking / blocking IO mode, allocator also as ReadBufferPool) with std clients: pipelined POST echo and generated responses in segments, WebSocket upgrade, echo of empty / threshold-sized / fragmented / compressed messages, pings, close by either side, half a request left behind; " +
+		"wq: real nbio.Conn on a simulated descriptor: 3-20 operations Write / Writev (0-4 buffers) / Sendfile / flush / Close with lengths 0, small, 32K+-, 64K+-, 70-130K, kernel scripts of Took k (small, large, unbounded) / EAGAIN / EINTR / EPIPE, MaxWriteBufferSize on/off, allocator in place / always move / move on growth with 0-70000 bytes of spare capacity, compared with the model after every operation; " +
+		"body: 2-15 operations append (0, small, 4096, 64K+-, around the spare capacity) / Read (0, 1, small, large) / Close in any order, MaxHTTPBodySize on/off, compared with the model; " +
+		"wsrecv: 1-5 messages as frame streams (fragments incl. empty ones, compressed, bad deflate data, control frames in between, 8 kinds of protocol violation, over the limits, handler closing the connection) cut anywhere, both roles, ReleasePayload / frame handler / compression / limits on and off, compared with the model after every Parse; " +
+		"synth: random event traces with violations for the two checkers; non-trivial = the run performed allocator events (synth: the trace contains a violation)"
 	h := &H{rep: rep, seed: *seed}
 	if *model != "" {
 		h.model = hx.StartModel(*model)
@@ -316,6 +320,24 @@ func main() {
 		}
 		for it := 0; it < k && !rep.TooMany(); it++ {
 			engineCase(h, r, it)
+		}
+	}
+	r = rand.New(rand.NewSource(*seed + 6000003))
+	if want("wq") {
+		for it := 0; it < *n*5 && !rep.TooMany(); it++ {
+			wqCase(h, r, it)
+		}
+	}
+	r = rand.New(rand.NewSource(*seed + 7000003))
+	if want("body") {
+		for it := 0; it < *n*5 && !rep.TooMany(); it++ {
+			bodyCase(h, r, it)
+		}
+	}
+	r = rand.New(rand.NewSource(*seed + 8000003))
+	if want("wsrecv") {
+		for it := 0; it < *n*6 && !rep.TooMany(); it++ {
+			wsrecvCase(h, r, it)
 		}
 	}
 	r = rand.New(rand.NewSource(*seed + 4000003))
